@@ -1,9 +1,33 @@
 SOURCE_COMMITS = []
-NOTE_COMMON = 'Trusted base: numpy/scipy/CPython, IEEE doubles, the independent reference model in pvmon/refmodel.py. Held = no monitor fired on the executions listed in the evidence file; nothing is claimed about inputs not generated.'
+NOTE_COMMON = ('Trusted base: CPython, numpy/scipy (pint for C17 unit parsing), IEEE doubles, the independent reference model in pvmon/refmodel.py. '
+               'Held = no monitor fired on the executions listed in the evidence file; nothing is claimed about inputs that were not generated.')
+LEVEL = ('Exploration is the right level: the property is a universally quantified numerical/behavioural claim over an unbounded input or history space, '
+         'which observation can refute but not prove; the evidence file lists what was actually observed (cases, monitor events per hook, category histograms, worst error/tolerance ratios).')
+
+
+def C(id, technique, text):
+    return {'id': id, 'design_ref': 'DESIGN.md section 4 ' + id, 'technique': technique, 'text': text + ' ' + LEVEL, 'note': NOTE_COMMON}
+
+
 CHECKS = [
- {'id': 'C07', 'design_ref': 'DESIGN.md section 4 C07', 'technique': 'invariant at a hook (Domain constructor + setters wrapped) + dense reference transform oracle over random setter histories',
-  'text': 'Every Domain constructor/setter call in generated configuration histories is followed by a grid invariant check on the live object and a comparison with a fresh Domain; transform outputs are compared with dense sine-matrix references and round-trip/linearity bounds. Exploration over thousands of (length, spacing, history, array) cases is the right level because the property is a universally quantified numerical claim that can only be refuted by observation.',
-  'note': NOTE_COMMON},
+ C('C07', 'invariant at a hook (Domain constructor + setters wrapped on the class) + dense reference-transform oracle over random setter histories',
+   'Every Domain constructor/setter call in generated configuration histories is followed by a grid invariant check on the live object and a comparison with a fresh Domain; transform outputs are compared with dense sine-matrix references and round-trip/linearity bounds; MatrixArray transforms are checked pair by pair incl. the space-flag rule.'),
+ C('C09', 'post-condition contract on the real closure.calculate methods + metamorphic probes (elementwise, alias, read-only replica, weak limit)',
+   'Each call of every closure class is compared with the published relation evaluated by the reference model, inputs must be bit-identical afterwards; the workload sweeps gamma scale, potential kind, sigma position and flag and adds permutation/subsample/single-element, alias and weak-coupling probes.'),
+ C('C10', 'post-condition contract on the real potential.calculate methods + system-level contact-rule monitor on live PRISM objects',
+   'Each potential call is compared with the documented u(r); systems with sigma = m*dr for every m and noisy/offset diameters are built and the potential handed to each closure, the sigma defaulting and the contact rule are checked on the PRISM object.'),
+ C('C11', 'post-condition contract on the real omega.calculate methods against the defining pair sum + sum-rule / k-independence / FP-trap probes',
+   'Each omega evaluation is compared with the defining double sum evaluated term by term (tolerance 1e-7 N), sum rules, limits and k-independence are probed on log grids and real Domain k grids; DiscreteKoyama parameter validation and second moment are checked from constructor arguments.'),
+ C('C12', 'outcome classification against an executable acceptance model (match -> verbatim values, mismatch -> exception by a given stage) + aliasing probe',
+   'For each generated (data, k column, Domain) the model decides match/mismatch; the real FromArray/FromFile/createPRISM/cost outcome and returned values are compared with it, and the caller\'s arrays are mutated after construction.'),
+ C('C13', 'post-condition contracts on every real MatrixArray operator (snapshot, per-matrix reference, np.shares_memory aliasing probe, frame condition) under random operation sequences + in-place vs out-of-place shadow run',
+   'Every arithmetic call in random operator sequences (and in PRISM.cost evaluations) is checked against matrix-by-matrix numpy results, for aliasing, for the who-may-change frame condition and for the space rule.'),
+ C('C14', 'history + executable dict model with unique write ids; full observable state compared after every step',
+   'Random histories of set/setUnset/apply/mutate/check/iterate on real PairTable and ValueTable objects are mirrored into a dict model; every read identifies the write it observed, copy isolation is probed by identity and by mutation.'),
+ C('C15', 'icontract class invariants on the real Density/Diameter classes + history model with last-write-wins',
+   'icontract evaluates the derived-quantity invariant after every public method call; assignment histories with re-assignment are mirrored into a model and every derived entry is compared after each step.'),
+ C('C17', 'post-condition contract on the six real conversion methods against exact-SI formulas + linearity/elementwise probes',
+   'Every conversion result is expressed in its documented unit and compared with the textbook formula from exact 2019 SI constants, its dimensionality is checked, and linear/affine and elementwise behaviour is probed over converter configurations.'),
 ]
 ALL = ['C%02d' % i for i in range(1, 19)]
 NOT_APPLICABLE = [{'property_id': p, 'reason': 'check not built yet (work in progress; see DESIGN.md section 8 for the order of work)'} for p in ALL if p not in [c['id'] for c in CHECKS]]
